@@ -19,6 +19,7 @@ import sys
 import tempfile
 import time
 from concurrent.futures import ThreadPoolExecutor
+from . import transforms
 
 HERE = os.path.dirname(os.path.abspath(__file__))
 VERIF = os.path.dirname(HERE)
@@ -92,9 +93,8 @@ def run_variant(v, baseline):
             err = apply_edits(root, v["edits"])
         elif v.get("transform") == "roundtrip":
             err = roundtrip(root)
-        elif v.get("transform") == "rename_locals":
-            from . import transforms
-            err = transforms.rename_locals(root)
+        elif v.get("transform") in transforms.ALL:
+            err = getattr(transforms, v["transform"])(root)
         else:
             err = apply_edits(root, v["edits"])
         if err:
@@ -165,6 +165,11 @@ def variants_for(prop):
     vs = [dict(v, prop=prop) for v in variants.VARIANTS.get(prop, [])]
     vs.append(dict(prop=prop, name="benign-ast-roundtrip", kind="benign", transform="roundtrip", edits=[]))
     vs.append(dict(prop=prop, name="benign-rename-every-local", kind="benign", transform="rename_locals", edits=[]))
+    vs.append(dict(prop=prop, name="benign-flip-every-comparison", kind="benign", transform="flip_comparisons", edits=[]))
+    vs.append(dict(prop=prop, name="benign-invert-every-if-else", kind="benign", transform="invert_if_else", edits=[]))
+    vs.append(dict(prop=prop, name="benign-membership-as-or-chain", kind="benign", transform="membership_to_or", edits=[]))
+    for t in ("else_after_terminator", "hoist_else", "expand_augassign", "fold_constants"):
+        vs.append(dict(prop=prop, name="benign-%s" % t.replace("_", "-"), kind="benign", transform=t, edits=[]))
     for b in variants.BENIGN_ALL:
         vs.append(dict(b, prop=prop))
     vs += unrepair_variants(prop)
